@@ -65,13 +65,7 @@ def splitGraceful (hp : Str) : Option (Str × Str) :=
 
 -- `Rx` and `HeaderCfg` (`v2.HeaderMatcher`) live in Model/RouteBase.lean: the regenerated constructors read them
 
-/-- `v2.VariableMatcher`; `regex = none` ⇔ `Regex == ""` -/
-structure VarCfg where
-  name : Str
-  value : Str
-  regex : Option Rx
-  model : Str
-deriving DecidableEq, Repr, Inhabited
+-- `VarCfg` (`v2.VariableMatcher`) lives in Model/RouteBase.lean too: the regenerated `ParseToVariableMatchItem` reads it
 
 /-- `v2.DslExpressionMatcher`: is the expression text empty, its oracle identifier, does it compile -/
 structure DslCfg where
@@ -122,8 +116,9 @@ header name reaches the matcher, which entries are dropped, which become request
 query-parameter matcher is installed are read off the Go source.  `Lemmas.gen_newKeyValueData`,
 `gen_createCommon`, `gen_createHttp`, `gen_createRpc` give their closed forms. -/
 
-/-- `ParseToVariableMatchItem` (`none` = the nil item the Go code returns for a bad regex / model; `NewRouteBase`
-then fails) -/
+/-- `ParseToVariableMatchItem` in closed form (`none` = the nil item the Go code returns for a bad regex / model;
+`NewRouteBase` then fails).  `Props.C04.gen_parseVarItem`: the regenerated `Gen.Route.parseToVariableMatchItem`
+equals it — a `regex` is always compiled into `regexPattern`, never stored as the exact `value`. -/
 def parseVarItem (v : VarCfg) : Option VarItem :=
   let value := if v.value = [] then none else some v.value
   let rxp : Option (Option RegexId) := match v.regex with
